@@ -334,7 +334,7 @@ func c04Judge(c *mon.Ctx, in *c04Case) {
 	c.Eval(1)
 
 	// ---- sign through the library
-	tx := s.Build()
+	tx := s.BuildShared()
 	signed := s.Clone()
 	var serr error
 	switch in.Via {
